@@ -210,6 +210,10 @@ def all_units(situations=None, fin_split=True):
                 if not fin_split:
                     u['fin_sym'] = True
                 units.append(u)
+    if situations is None and fin_split:
+        # endpoints without a TCB: all 64 flag combinations symbolic in one unit each
+        units.append({'nostate': 'closed', 'situation': 'closed-state', 'target': 'B', 'cls': 0})
+        units.append({'nostate': 'listen', 'situation': 'listen-state', 'target': 'B', 'cls': 0})
     return units
 
 
@@ -657,7 +661,10 @@ def worker_run(args):
     t0 = time.time()
     ex = new_exec()
     try:
-        run_forged_unit(ex, _W['F'], unit, res, tier=tier, deadline=t0 + budget)
+        if 'nostate' in unit:
+            run_nostate_unit(ex, _W['F'], unit, res, tier=tier, deadline=t0 + budget)
+        else:
+            run_forged_unit(ex, _W['F'], unit, res, tier=tier, deadline=t0 + budget)
     except Unsupported as e:
         res.unsupported.append(f'{unit}: {e}')
     except Exception as e:
@@ -832,6 +839,121 @@ def worker_run_shift(args):
     ex = new_exec()
     try:
         run_shift_unit(ex, _W['F'], unit, res, tier=tier, deadline=t0 + budget)
+    except Unsupported as e:
+        res.unsupported.append(f'{unit}: {e}')
+    except Exception as e:
+        res.unsupported.append(f'{unit}: internal error {e!r}: ' + traceback.format_exc()[-400:])
+    res.wall = time.time() - t0
+    res.stats = dict(ex.stats)
+    res.encoded = sorted(ex.encoded)
+    res.models = sorted(ex.models_used)
+    return res
+
+
+# ------------------------------------------------------------------------------ CLOSED / LISTEN: arbitrary segments (RFC 9293 3.10.7.1 / 3.10.7.2)
+
+def run_nostate_unit(ex, F, unit, res, tier='quick', deadline=None):
+    """fully symbolic segment (all 64 flag combinations symbolic) arriving for an endpoint without a TCB"""
+    kind = unit['nostate']
+    holder = {}
+
+    def body(ex):
+        sim = Sim(ex, F)
+        holder['sim'] = sim
+        sim.record = True
+        p = P(ex)
+        ctl = sym_int('f_ctl', 8)
+        ex.assume(ex.binop('Lt', ctl, Int(8, 64), False))
+        tl = sym_int('f_len', 64)
+        ex.assume(ex.binop('Le', tl, U64(1450), False))
+        seq, ack, wnd = sym_int('f_seq', 32), sym_int('f_ack', 32), sym_int('f_wnd', 16)
+        fs = sim.forged('A', seq, ack, ctl, wnd, 'X', U64(0), tl)
+        sim.info = {'pre': {'state': kind.upper()}, 'flags': set(), 'forged': fs, 'stage': kind, 'p': p}
+        flag = lambda bit: ex.binop('Ne', ex.binop('BitAnd', ctl, Int(8, bit), False), Int(8, 0), False)
+        f_rst, f_ack, f_syn = flag(RST), flag(ACK), flag(SYN)
+        if kind == 'closed':
+            resp = sim.closed_arrives('B', fs, ex.cast(tl, 'u32', 'IntToInt'))
+            res.obligations += 1
+            if resp is None:
+                okv, m = _valid(ex, f_rst)
+                if not okv:
+                    return ('c17d:closed-no-reset-for-non-rst', 'CLOSED: a segment without RST was not answered with a reset', m, sim)
+                return (None, None, None, sim)
+            hv = HdrView(F, resp)
+            conds = [b_not(f_rst), hv.flag(RST) if isinstance(hv.flag(RST), bool) else hv.flag(RST),
+                     ex.binop('Eq', hv.src_port, Int(16, 80), False), ex.binop('Eq', hv.dst_port, Int(16, 1000), False)]
+            # <SEQ=SEG.ACK><CTL=RST> if the segment has ACK, else <SEQ=0><ACK=SEG.SEQ+SEG.LEN><CTL=RST,ACK>
+            with_ack = b_and(ex.binop('Eq', hv.seq, ack, False), b_not(hv.flag(ACK)))
+            no_ack = b_and(ex.binop('Eq', hv.seq, U32(0), False), hv.flag(ACK), ex.binop('Eq', hv.ack, ex.binop('Add', seq, ex.cast(tl, 'u32', 'IntToInt'), False), False))
+            conds.append(b_or(b_and(f_ack, with_ack), b_and(b_not(f_ack), no_ack)))
+            okv, m = _valid(ex, b_and(*conds))
+            if not okv:
+                return ('c17d:closed-wrong-reset', 'CLOSED: the reset sent in response does not have the fields RFC 9293 3.10.7.1 prescribes', m, sim)
+            return (None, None, None, sim)
+        # LISTEN
+        r, resp = sim.listen_arrives('B', fs, p.issB, p.mtu)
+        res.obligations += 1
+        if r == 'none':
+            okv, m = _valid(ex, b_or(f_rst, b_and(b_not(f_ack), b_not(f_syn))))
+            if not okv:
+                return ('c03:listen-ignored-syn-or-ack', 'LISTEN: a segment with SYN (or with ACK) and without RST was silently ignored', m, sim)
+        elif r == 'response':
+            hv = HdrView(F, resp)
+            okv, m = _valid(ex, b_and(b_not(f_rst), f_ack, hv.flag(RST), ex.binop('Eq', hv.seq, ack, False)))
+            if not okv:
+                return ('c03:listen-wrong-reset', 'LISTEN: a reset was sent although the segment has no ACK (or RST), or its SEQ is not SEG.ACK', m, sim)
+        else:
+            v = sim.view('B')
+            conds = [b_not(f_rst), b_not(f_ack), f_syn, v.state_name == 'SynReceived',
+                     ex.binop('Eq', v.rcv('irs'), seq, False), ex.binop('Eq', v.rcv('nxt'), ex.binop('Add', seq, U32(1), False), False),
+                     ex.binop('Eq', v.snd('iss'), p.issB, False), ex.binop('Eq', v.snd('una'), p.issB, False),
+                     ex.binop('Eq', v.snd('nxt'), ex.binop('Add', p.issB, U32(1), False), False), ex.binop('Eq', v.snd('wnd'), wnd, False)]
+            okv, m = _valid(ex, b_and(*conds))
+            if not okv:
+                return ('c03:listen-wrong-tcb', 'LISTEN: the TCB created for a SYN is not SYN-RECEIVED with IRS=SEG.SEQ, RCV.NXT=SEG.SEQ+1, SND.UNA=ISS, SND.NXT=ISS+1, SND.WND=SEG.WND', m, sim)
+            # the SYN-ACK that is emitted next
+            out = sim.segments('B')
+            res.obligations += 1
+            if not out:
+                return ('c03:listen-no-synack', 'LISTEN: no SYN-ACK is emitted for an accepted SYN', None, sim)
+            hv, txt = seg_parts(F, sim.seg_of(out[0]))
+            okv, m = _valid(ex, b_and(hv.flag(SYN), hv.flag(ACK), ex.binop('Eq', hv.seq, p.issB, False), ex.binop('Eq', hv.ack, ex.binop('Add', seq, U32(1), False), False)))
+            if not okv:
+                return ('c03:listen-wrong-synack', 'LISTEN: the first segment emitted for an accepted SYN is not <SEQ=ISS><ACK=SEG.SEQ+1><CTL=SYN,ACK>', m, sim)
+            sim.receive('B')
+        return (None, None, None, sim)
+
+    def on_end(ex, kind_, r):
+        res.paths += 1
+        sim = holder.get('sim')
+        if kind_ == 'panic':
+            res.violations.append(mk_violation(ex, sim, unit, f'panic:{re.sub(r"<impl at [^>]*>", "Tcb", r.site).split("::")[-1]}:{_short(r.msg)}:stage={kind}',
+                                               f'panic in {r.site}: {r.msg} ({kind.upper()} state)', 'panic'))
+            return
+        role, desc, m, sim = r
+        if role is not None:
+            res.violations.append(mk_violation(ex, sim, unit, role, desc, 'c17d' if role.startswith('c17') else 'c03', model=m))
+        elif len(res.samples) < 2:
+            okk, mm = ex.check_sat()
+            ev = model_eval(mm)
+            res.samples.append({'state': kind.upper(), 'ctl': ev(sim.info['forged'][4]), 'seq': ev(sim.info['forged'][2]), 'result': str(sim.results[0])[:40]})
+        if role is None and len(res.validation) < 3 and res.paths % 2 == 1:
+            okk, mm = ex.check_sat()
+            ev = model_eval(mm)
+            res.validation.append({'rust': render_rust(sim, ev, '@@NAME@@', prelude=False), 'predicted': predict_lines(sim, ev)})
+
+    ex.explore(body, on_end, deadline=deadline)
+
+
+def worker_run_nostate(args):
+    unit, tier, budget = args
+    if not _W:
+        worker_init()
+    res = UnitResult(unit)
+    t0 = time.time()
+    ex = new_exec()
+    try:
+        run_nostate_unit(ex, _W['F'], unit, res, tier=tier, deadline=t0 + budget)
     except Unsupported as e:
         res.unsupported.append(f'{unit}: {e}')
     except Exception as e:
